@@ -1,10 +1,12 @@
 (* C07 -- Every block the node produces is one every node accepts.
-   Statements only; proofs in proofs/ProducerProofs.v, model in model/Producer.v.
+   Statements only; proofs in proofs/ProducerProofs.v, model in model/Producer.v
+   (= /repo HEAD incl. the fixes f62222f, e0300b2, 1214e31, 9879695).
 
    Block::create / Mempool::bundle_block / Mempool::can_bundle_block and Block::validate are
    modelled as written; the economic part of generate_consensus_values is the abstract
    function [cv] (chain, ledger, BLOCK |-> values): in create it runs on the half-built
-   block (golden ticket + drained pool, header fields still zero), in validate on the
+   block (golden ticket + drained pool, header fields still zero; once more after create
+   has left out pooled transactions that collide with a rebroadcast), in validate on the
    finished block (rebroadcast and fee transactions appended, header filled).
 
    FULL STATEMENT (false on the code as it is -- see the *_refuted witnesses, which are
@@ -31,10 +33,12 @@ Section C07.
   Notation create := (create chain view cv hchain mroot).
   Notation validate := (validate chain view cv tx_valid gt_ok work_needed mroot).
   Notation node_accepts := (node_accepts chain view cv tx_valid gt_ok work_needed supply_ok mroot).
-  Notation bundle := (bundle chain view cv tx_valid work_needed hchain mroot).
+  Notation bundle := (bundle chain view cv tx_valid gt_ok work_needed hchain mroot).
   Notation can_bundle := (can_bundle chain view work_needed).
   Notation intake := (add_transaction_if_validates chain tx_valid).
-  Notation Known_C07 := (Known_C07 chain view cv tx_valid gt_ok hchain).
+  Notation screen := (screen_ticket chain view gt_ok).
+  Notation Known_C07 := (Known_C07 chain view cv tx_valid hchain).
+  Notation tip_hash := (tip_hash_of chain view).
 
   (* [agreesb cC cV], field by field: what Block::validate recomputes on the finished block
      equals what Block::create wrote from the values computed on the half-built block *)
@@ -71,80 +75,104 @@ Section C07.
        end.
   Proof. exact (agreesb_fields hchain). Qed.
 
-  (* Block::create's block passes Block::validate on the same node.  Hypotheses:
+  (* Block::create's block passes Block::validate on the same node.  [kept] = the drained pool
+     minus the transactions create leaves out because they spend an input of a rebroadcast.
+     Hypotheses:
      (cv)   agreesb: cv of the finished block agrees, field by field, with the header
             written from cv of the half-built block; the transactions cv hands over are
             ATR- resp. Fee-typed; a fee transaction only together with a golden ticket;
      (gt)   the golden ticket handed to create is a GoldenTicket transaction whose solution
-            validates against the parent;
+            validates against the parent (bundle_block guarantees the second: C07_bundled_ticket_solves);
      (pool) the drained pool holds no GoldenTicket/Fee/ATR-typed and no Issuance-typed
-            transaction, is not empty, holds exactly one BlockStake transaction if staking
-            is required; every transaction of the block validates on the parent state;
-     (work) the work can_bundle_block saw is in the drained list (C07_gate_implies_work). *)
+            transaction; what is kept is not empty and holds exactly one BlockStake transaction
+            if staking is required; every transaction of the block validates on the parent state;
+     (work) the kept transactions carry the work validate asks for. *)
   Theorem C07_produced_validates : forall dbg (n : node chain) creator ts gt drained b p,
     v_tip (view (n_chain _ n)) = Some p ->
     create dbg n creator ts gt drained = Ok b ->
-    let cC := cv (n_chain _ n) (n_ledger _ n) (pre_block (Some p) (par_hash p) creator ts gt drained) in
+    let c0 := cv (n_chain _ n) (n_ledger _ n) (pre_block (Some p) (par_hash p) creator ts gt drained) in
+    let kept := kept_pool c0 drained in
+    let cC := cv (n_chain _ n) (n_ledger _ n) (pre_block (Some p) (par_hash p) creator ts gt kept) in
     let cV := cv (n_chain _ n) (n_ledger _ n) b in
     agreesb dbg hchain cC cV = true ->
     cv_types_ok cC = true ->
     (c_fee_tx cC <> None -> gt <> None) ->
     (forall g, gt = Some g -> is_type TGoldenTicket g = true /\ gt_ok (n_chain _ n) g = true) ->
     pool_types_ok drained = true ->
-    drained <> [] ->
+    kept <> [] ->
     count_type TIssuance drained = 0 ->
-    (v_stake_req (view (n_chain _ n)) = 0 \/ count_type TBlockStake drained = 1) ->
+    (v_stake_req (view (n_chain _ n)) = 0 \/ count_type TBlockStake kept = 1) ->
     forallb (tx_valid (n_chain _ n) (n_ledger _ n)) (b_txs b) = true ->
-    work_needed (par_burnfee p) ts (par_ts p) (v_heartbeat (view (n_chain _ n))) <= nsum (map t_work drained) ->
+    work_needed (par_burnfee p) ts (par_ts p) (v_heartbeat (view (n_chain _ n))) <= nsum (map t_work kept) ->
     validate dbg n true b = Ok true.
-  Proof. exact (produced_validates chain view cv tx_valid gt_ok work_needed hchain mroot). Qed.
+  Proof. exact (produced_validates_F chain view cv tx_valid gt_ok work_needed hchain mroot). Qed.
 
   (* the same as "forall x, ~ Known_C07 x -> P x" *)
   Theorem C07_produced_validates_outside_known : forall dbg (n : node chain) creator ts gt drained b p,
     v_tip (view (n_chain _ n)) = Some p ->
     create dbg n creator ts gt drained = Ok b ->
     Known_C07 dbg n creator ts gt drained b = false ->
-    let cC := cv (n_chain _ n) (n_ledger _ n) (pre_block (Some p) (par_hash p) creator ts gt drained) in
+    let c0 := cv (n_chain _ n) (n_ledger _ n) (pre_block (Some p) (par_hash p) creator ts gt drained) in
+    let kept := kept_pool c0 drained in
+    let cC := cv (n_chain _ n) (n_ledger _ n) (pre_block (Some p) (par_hash p) creator ts gt kept) in
     cv_types_ok cC = true ->
     (c_fee_tx cC <> None -> gt <> None) ->
-    (forall g, gt = Some g -> is_type TGoldenTicket g = true) ->
+    (forall g, gt = Some g -> is_type TGoldenTicket g = true /\ gt_ok (n_chain _ n) g = true) ->
     pool_types_ok drained = true ->
-    drained <> [] ->
-    work_needed (par_burnfee p) ts (par_ts p) (v_heartbeat (view (n_chain _ n))) <= nsum (map t_work drained) ->
+    kept <> [] ->
+    (v_stake_req (view (n_chain _ n)) = 0 \/ count_type TBlockStake kept = 1) ->
+    work_needed (par_burnfee p) ts (par_ts p) (v_heartbeat (view (n_chain _ n))) <= nsum (map t_work kept) ->
     validate dbg n true b = Ok true.
   Proof. exact (produced_validates_outside_known chain view cv tx_valid gt_ok work_needed hchain mroot). Qed.
 
-  (* bundle allowed => the block has the work validate asks for: both sides use the same
-     function on the same burn fee / timestamps / heartbeat; what has to hold is that the
-     cached routing work does not over-report the pooled transactions (C14, I5) *)
+  (* Block::create = the plain steps (no filter) on the pool that is left *)
+  Theorem C07_create_filters : forall dbg (n : node chain) creator ts gt d p,
+    v_tip (view (n_chain _ n)) = Some p ->
+    (forall g, gt = Some g -> is_type TGoldenTicket g = true) ->
+    create dbg n creator ts gt d
+    = create_plain chain view cv hchain mroot dbg n creator ts gt
+        (kept_pool (cv (n_chain _ n) (n_ledger _ n) (pre_block (Some p) (par_hash p) creator ts gt d)) d).
+  Proof. exact (create_bridge chain view cv work_needed hchain mroot). Qed.
+
+  (* bundle allowed => a block built from a list that holds the cached work has the work validate
+     asks for: both sides use the same function on the same burn fee / timestamps / heartbeat *)
   Theorem C07_gate_implies_work : forall dbg (n : node chain) creator m ts gt w p drained b,
     v_tip (view (n_chain _ n)) = Some p ->
     can_bundle n m ts (is_some gt) = Some w ->
     m_work m <= nsum (map t_work drained) ->
-    create dbg n creator ts gt drained = Ok b ->
+    create_plain chain view cv hchain mroot dbg n creator ts gt drained = Ok b ->
     work_needed (par_burnfee p) (b_ts b) (par_ts p) (v_heartbeat (view (n_chain _ n))) <= b_total_work b.
   Proof. exact (gate_implies_work chain view cv work_needed hchain mroot). Qed.
 
   (* the producer's path: bundle_block returned a block => Blockchain::add_block accepts it
      (golden-ticket count of Blockchain::validate + Block::validate + check_total_supply; the
-     last one is C02's subject and enters as the hypothesis [supply_ok]: a block that
-     validates but breaks the supply equation panics the node, see C07_dust_spend_witness) *)
+     last one is C02's subject and enters as the hypothesis [supply_ok], see C07_dust_spend_witness).
+     No hypothesis on the solution of the pooled ticket any more (fix e0300b2).  New with fix
+     1214e31: the hypothesis that what create leaves out did not carry the work the gate counted
+     (listed finding left-out-transaction-carried-the-work). *)
   Theorem C07_bundle_produced_validates : forall dbg (n : node chain) creator m ts gt stake order b m' p,
     v_tip (view (n_chain _ n)) = Some p ->
     bundle dbg n creator m ts gt stake order = Ok (Bundled b, m') ->
-    forall s m1, stake = Some s -> intake dbg n m s = Ok m1 ->
+    forall gt' m0 s m1,
+    screen n m gt = (gt', m0) ->
+    stake = Some s -> intake dbg n m0 s = Ok m1 ->
     let drained := drain_in order (m_txs m1) in
-    let cC := cv (n_chain _ n) (n_ledger _ n) (pre_block (Some p) (par_hash p) creator ts gt drained) in
+    let c0 := cv (n_chain _ n) (n_ledger _ n) (pre_block (Some p) (par_hash p) creator ts gt' drained) in
+    let kept := kept_pool c0 drained in
+    let cC := cv (n_chain _ n) (n_ledger _ n) (pre_block (Some p) (par_hash p) creator ts gt' kept) in
     let cV := cv (n_chain _ n) (n_ledger _ n) b in
     agreesb dbg hchain cC cV = true ->
     cv_types_ok cC = true ->
-    (c_fee_tx cC <> None -> gt <> None) ->
-    (forall g, gt = Some g -> is_type TGoldenTicket g = true /\ gt_ok (n_chain _ n) g = true) ->
+    (c_fee_tx cC <> None -> gt' <> None) ->
+    (forall g, gt = Some g -> is_type TGoldenTicket g = true) ->
     pool_types_ok (m_txs m1) = true ->
     count_type TIssuance (m_txs m1) = 0 ->
-    (v_stake_req (view (n_chain _ n)) = 0 \/ count_type TBlockStake (m_txs m1) = 1) ->
+    (v_stake_req (view (n_chain _ n)) = 0 \/ count_type TBlockStake kept = 1) ->
     forallb (tx_valid (n_chain _ n) (n_ledger _ n)) (b_txs b) = true ->
     m_work m <= nsum (map t_work (m_txs m)) ->
+    kept <> [] ->
+    nsum (map t_work (m_txs m1)) <= nsum (map t_work kept)
+      \/ work_needed (par_burnfee p) ts (par_ts p) (v_heartbeat (view (n_chain _ n))) <= nsum (map t_work kept) ->
     supply_ok (n_chain _ n) (n_ledger _ n) b = true ->
     node_accepts dbg n b = Ok true.
   Proof. exact (bundle_produced_validates chain view cv tx_valid gt_ok work_needed supply_ok hchain mroot). Qed.
@@ -159,9 +187,10 @@ Section C07.
     node_accepts dbg n2 b = node_accepts dbg n b.
   Proof. exact (second_node_same chain view cv tx_valid gt_ok work_needed supply_ok mroot). Qed.
 
-  (* ---- the listed classes, as theorems about the model ---- *)
+  (* ---- golden tickets (fix e0300b2) ---- *)
 
-  (* a golden ticket whose solution does not validate: the produced block is never valid *)
+  (* why the ticket has to be screened: a block built with a ticket that does not solve the
+     tip is never valid *)
   Theorem C07_invalid_gt_rejected : forall dbg (n : node chain) creator ts g drained b p vu,
     v_tip (view (n_chain _ n)) = Some p ->
     par_ghost p = false ->
@@ -169,97 +198,118 @@ Section C07.
     is_type TGoldenTicket g = true ->
     gt_ok (n_chain _ n) g = false ->
     pool_types_ok drained = true ->
-    cv_types_ok (cv (n_chain _ n) (n_ledger _ n) (pre_block (Some p) (par_hash p) creator ts (Some g) drained)) = true ->
+    (forall b0, cv_types_ok (cv (n_chain _ n) (n_ledger _ n) b0) = true) ->
     validate dbg n vu b <> Ok true.
   Proof. exact (invalid_gt_rejected chain view cv tx_valid gt_ok work_needed hchain mroot). Qed.
 
-  (* ... and the producer repeats the failure on every timer tick, for ever: the ticket is
-     pooled without a look at its solution, bundle_block never touches the ticket map, and
-     add_block_failure deletes under the hash of the failed block while the map is keyed by
-     the target (= hash of the parent) *)
-  Theorem C07_invalid_gt_stuck : forall dbg (n : node chain) creator p g,
+  (* a ticket that reaches Block::create through bundle_block solves the tip *)
+  Theorem C07_bundled_ticket_solves : forall dbg (n : node chain) creator m ts gt stake order b m' p g,
     v_tip (view (n_chain _ n)) = Some p ->
-    par_ghost p = false ->
-    is_type TGoldenTicket g = true ->
-    gt_ok (n_chain _ n) g = false ->
-    (forall b0, cv_types_ok (cv (n_chain _ n) (n_ledger _ n) b0) = true) ->
-    forall attempts m r m_end,
-      pick_gt m (par_hash p) = Some g ->
-      pool_types_ok (m_txs m) = true ->
-      Forall (fun a : N * option tx * list N * N => snd a <> par_hash p) attempts ->
-      ticks chain view cv tx_valid gt_ok work_needed supply_ok hchain mroot dbg n creator (par_hash p) m attempts = Ok (r, m_end) ->
-      r = false /\ pick_gt m_end (par_hash p) = Some g.
-  Proof. exact (invalid_gt_stuck chain view cv tx_valid gt_ok work_needed supply_ok hchain mroot). Qed.
+    bundle dbg n creator m ts gt stake order = Ok (Bundled b, m') ->
+    fst (screen n m gt) = Some g ->
+    gt = Some g /\ gt_ok (n_chain _ n) g = true.
+  Proof. exact (bundled_ticket_solves chain view cv tx_valid gt_ok work_needed hchain mroot). Qed.
 
-  (* local clock not after the tip's timestamp: bundle_block declines and leaves the pool
-     alone -- no panic on timestamp order (the assert! was replaced by fix f62222f) *)
+  (* the producer recovers: with a pooled ticket for the tip that does not solve it, ONE call of
+     bundle_block (clock after the tip) behaves exactly like the call without a ticket on the pool
+     without that ticket, and afterwards the pool holds no ticket for the tip -- whatever the
+     outcome of the call (no block, block accepted, block rejected for another reason) *)
+  Theorem C07_invalid_gt_recovers : forall dbg (n : node chain) creator m ts g stake order out m',
+    (match v_tip (view (n_chain _ n)) with Some p => par_ts p | None => 0 end) < ts ->
+    pick_gt m (tip_hash n) = Some g ->
+    gt_ok (n_chain _ n) g = false ->
+    bundle dbg n creator m ts (pick_gt m (tip_hash n)) stake order = Ok (out, m') ->
+    pick_gt m' (tip_hash n) = None
+    /\ bundle dbg n creator (drop_ticket chain view n m g) ts None stake order = Ok (out, m').
+  Proof. exact (producer_recovers chain view cv tx_valid gt_ok work_needed hchain mroot). Qed.
+
+  (* ---- staking transactions of other keys are not pooled (fix 9879695) ---- *)
+  Theorem C07_foreign_stake_refused : forall dbg (n : node chain) m t,
+    is_type TBlockStake t = true -> t_own t = false -> intake dbg n m t = Ok m.
+  Proof. exact (foreign_stake_refused chain tx_valid). Qed.
+
+  (* ---- timestamps (fix f62222f) ---- *)
   Theorem C07_bundle_ts_declines : forall dbg (n : node chain) creator m ts gt stake order p,
     v_tip (view (n_chain _ n)) = Some p -> ts <= par_ts p ->
     bundle dbg n creator m ts gt stake order = Ok (GateClosed, m).
-  Proof. exact (bundle_ts_declines chain view cv tx_valid work_needed hchain mroot). Qed.
+  Proof. exact (bundle_ts_declines chain view cv tx_valid gt_ok work_needed hchain mroot). Qed.
 
-  (* Block::create fails only through its double-spend detection, and then the pool is gone *)
-  Theorem C07_create_error_is_double_spend : forall dbg (n : node chain) creator ts gt drained,
+  (* ---- Block::create failing (fix 1214e31) ---- *)
+
+  (* it fails only on a double spend among what it kept, its rebroadcasts and the fee
+     transaction -- and no kept pooled transaction collides with a rebroadcast *)
+  Theorem C07_create_error_is_double_spend : forall dbg (n : node chain) creator ts gt drained p,
+    v_tip (view (n_chain _ n)) = Some p ->
+    (forall g, gt = Some g -> is_type TGoldenTicket g = true) ->
     create dbg n creator ts gt drained = Err ->
-    let v := view (n_chain _ n) in
-    let tip_hash := match v_tip v with Some p => par_hash p | None => 0 end in
-    let cC := cv (n_chain _ n) (n_ledger _ n) (pre_block (v_tip v) tip_hash creator ts gt drained) in
-    dup_spend ((opt_list gt ++ drained) ++ c_rebroadcasts cC ++ opt_list (c_fee_tx cC)) = true.
-  Proof. exact (create_err_is_double_spend chain view cv hchain mroot). Qed.
+    let c0 := cv (n_chain _ n) (n_ledger _ n) (pre_block (Some p) (par_hash p) creator ts gt drained) in
+    let kept := kept_pool c0 drained in
+    let cC := cv (n_chain _ n) (n_ledger _ n) (pre_block (Some p) (par_hash p) creator ts gt kept) in
+    dup_spend ((opt_list gt ++ kept) ++ c_rebroadcasts cC ++ opt_list (c_fee_tx cC)) = true
+    /\ (c_rebroadcasts c0 <> [] ->
+        forall t, In t kept -> is_type TGoldenTicket t = true \/ collides (rb_inputs c0) t = false).
+  Proof. exact (create_err_is_double_spend chain view cv work_needed hchain mroot). Qed.
 
-  Theorem C07_create_failure_drains : forall dbg (n : node chain) creator m ts gt s order w m1,
-    (match v_tip (view (n_chain _ n)) with Some p => par_ts p | None => 0 end) < ts ->
-    can_bundle n m ts (is_some gt) = Some w ->
-    intake dbg n m s = Ok m1 ->
-    create dbg n creator ts gt (drain_in order (m_txs m1)) = Err ->
-    exists m', bundle dbg n creator m ts gt (Some s) order = Ok (CreateFailed, m')
-               /\ m_txs m' = [] /\ m_work m' = 0.
-  Proof. exact (create_failure_drains chain view cv tx_valid work_needed hchain mroot). Qed.
+  (* and then the pool gets back what create had drained and not left out, with reservations
+     and work cache recomputed from it *)
+  Theorem C07_create_failure_restores : forall dbg (n : node chain) creator m ts gt stake order m',
+    bundle dbg n creator m ts gt stake order = Ok (CreateFailed, m') ->
+    exists gt' m0 s m1,
+      screen n m gt = (gt', m0) /\ stake = Some s /\ intake dbg n m0 s = Ok m1
+      /\ m_txs m' = handed_back chain view cv n creator ts gt' (drain_in order (m_txs m1))
+      /\ m_work m' = nsum (map t_work (m_txs m'))
+      /\ m_umap m' = flat_map t_inputs (m_txs m')
+      /\ m_gts m' = m_gts m0.
+  Proof. exact (create_failure_restores chain view cv tx_valid gt_ok work_needed hchain mroot). Qed.
 End C07.
 
-(* ---------------------------------------------------------------- witnesses
-   Recorded rounds of the REAL code (harness/src/bin/c07.rs, scripted scenarios, seed 1):
-   the pool, the chain view, the ConsensusValues computed by Block::create ([rc_cvC] =
+(* ---------------------------------------------------------------- witnesses and regressions
+   Recorded rounds of the REAL code at /repo HEAD (harness/src/bin/c07.rs, scripted scenarios,
+   seed 1): the pool, the chain view, the ConsensusValues computed by Block::create ([rc_cvC] =
    block.cv) and by generate_consensus_values on the finished block on the second node
-   ([rc_cvV]), the verdicts of Transaction::validate / the golden-ticket check, the
-   observed outcome ([rc_expected]).  Elapsed time >= 2 heartbeats in all of them, so the
-   work needed is 0. *)
+   ([rc_cvV]), the verdicts of Transaction::validate / the golden-ticket check, the observed
+   outcome ([rc_expected]).  The work function is the constant the real function returned in
+   that round. *)
 Definition wn0 : N -> N -> N -> N -> N := fun _ _ _ _ => 0.
 
-(* cap: {"label": "dust-profile", "tip": 5, "gap_ms": 25000, "pool_size": 4, "cached_work": 80000, "work_needed": 0, "gt_for_tip": false, "outcome": "Rejected", "detail": "block 6 txs(types) [0, 0, 0, 0, 3] producer Invalid second node Invalid; atr multiplier 3; diffs [\"rebroadcast_hash: hash over the block's rebroadcast transactions differs from the recomputed one\"]; create-vs-validate cv []"} *)
+(* cap: {"label": "dust-profile", "tip": 5, "gap_ms": 25000, "pool_ops": [{"op": "transfer", "payer": 2, "input": "5:2:1 amount 613335", "fee": 20000, "hops": 1, "pooled": true}, {"op": "transfer", "payer": 3, "input": "5:4:0 amount 606669", "fee": 20000, "hops": 1, "pooled": true}, {"op": "transfer", "payer": 4, "input": "5:1:0 amount 600003", "fee": 20000, "hops": 1, "pooled": true}, {"op": "transfer", "payer": 5, "input": "5:3:0 amount 593337", "fee": 20000, "hops": 1, "pooled": true}], "pool_size": 4, "cached_work": 80000, "work_needed": 0, "gt_for_tip": false, "outcome": "Rejected", "detail": "block 6 txs(types) [0, 0, 0, 0, 3] producer Invalid second node Invalid; atr multiplier 3; diffs [\"rebroadcast_hash: hash over the block's rebroadcast transactions differs from the recomputed one\"]; create-vs-validate cv []"} *)
 Definition wit_cap : rcase :=
-  mkRC (mkView (Some (mkPar 65 5 1100000 40000 2 96428 12649111 false)) false 0 10000 1691 true true) (mkM [(mkTx 69 70 TNormal 20000 [71] 0); (mkTx 72 73 TNormal 20000 [74] 0); (mkTx 75 76 TNormal 20000 [77] 0); (mkTx 78 79 TNormal 20000 [80] 0)] [71; 74; 77; 80] 80000 true true []) 18 1125000 (Some (mkTx 14 15 TBlockStake 0 [] 0)) [70; 79; 76; 73] 81 (mkCv (mkE 80000 80000 0 95600 73115 69464 3651 0 0 0 0 0 21728 12840 0 0 0 44 56 112540 8000000 0) [(mkTx 82 9 TATR 0 [83] 1)] 1 84 None) (mkCv (mkE 80000 80000 0 95600 73115 69464 3651 0 0 0 0 0 21728 12840 0 0 0 44 56 112540 8000000 0) [(mkTx 82 9 TATR 0 [83] 1)] 1 84 None) [(69, true); (72, true); (75, true); (78, true); (14, false); (82, false)] [] [([82], 85); ([], 0)] [([69; 78; 75; 72; 82], 86)] true [[4]; [69; 78; 75; 72; 82]; [6; 1125000; 65; 96428; 40000; 2]; [80000; 80000; 0; 95600; 73115; 69464; 3651; 0; 0; 0; 0; 0; 21728; 12840; 0; 0; 0; 44; 56; 112540; 8000000; 0]; [80000; 1; 85; 86]; [0; 0]; [70; 73; 76; 79]; [80000; 1]; []].
+  mkRC (mkView (Some (mkPar 65 5 1100000 40000 2 96428 12649111 false)) false 0 10000 3263 true true) (mkM [(mkTx 69 70 TNormal 20000 [71] 0 0 false); (mkTx 72 73 TNormal 20000 [74] 0 0 false); (mkTx 75 76 TNormal 20000 [77] 0 0 false); (mkTx 78 79 TNormal 20000 [80] 0 0 false)] [71; 74; 77; 80] 80000 true true []) 18 1125000 (Some (mkTx 14 15 TBlockStake 0 [] 0 0 true)) [76; 79; 70; 73] 81 (mkCv (mkE 80000 80000 0 95600 73115 69464 3651 0 0 0 0 0 21728 12840 0 0 0 44 56 112540 8000000 0) [(mkTx 82 9 TATR 0 [83] 1 0 false)] 1 84 None) (mkCv (mkE 80000 80000 0 95600 73115 69464 3651 0 0 0 0 0 21728 12840 0 0 0 44 56 112540 8000000 0) [(mkTx 82 9 TATR 0 [83] 1 0 false)] 1 84 None) [(69, true); (72, true); (75, true); (78, true); (14, false); (82, false)] [] [([82], 85); ([], 0)] [([75; 78; 69; 72; 82], 86)] true [[4]; [75; 78; 69; 72; 82]; [6; 1125000; 65; 96428; 40000; 2]; [80000; 80000; 0; 95600; 73115; 69464; 3651; 0; 0; 0; 0; 0; 21728; 12840; 0; 0; 0; 44; 56; 112540; 8000000; 0]; [80000; 1; 85; 86]; [0; 0]; [70; 73; 76; 79]; [80000; 1]; []].
 
-(* gt: {"label": "invalid-golden-ticket", "tip": 4, "gap_ms": 25000, "pool_size": 3, "cached_work": 5150, "work_needed": 0, "gt_for_tip": true, "outcome": "Rejected", "detail": "block 5 txs(types) [2, 0, 0, 0, 1] producer Invalid second node Invalid; atr multiplier 1; diffs []; create-vs-validate cv []"} *)
+(* gt: {"label": "invalid-golden-ticket", "tip": 4, "gap_ms": 25000, "pool_ops": [{"op": "transfer", "payer": 2, "input": "1:9:0 amount 401002", "fee": 5000, "hops": 1, "pooled": true}, {"op": "transfer", "payer": 3, "input": "3:3:0 amount 401703", "fee": 300, "hops": 2, "pooled": true}, {"op": "transfer", "payer": 4, "input": "1:29:0 amount 405004", "fee": 0, "hops": 0, "pooled": true}, {"op": "golden-ticket", "kind": "Invalid", "tip_difficulty": 2}], "pool_size": 3, "cached_work": 5150, "work_needed": 0, "gt_for_tip": true, "outcome": "Accepted", "detail": "block 5 txs(types) [0, 0, 0] producer OnChain second node OnChain; atr multiplier 1; diffs []; create-vs-validate cv []"} *)
 Definition wit_gt : rcase :=
-  mkRC (mkView (Some (mkPar 46 4 1075000 0 2120 5300 20000000 false)) false 0 10000 3494 true true) (mkM [(mkTx 50 51 TNormal 0 [52] 0); (mkTx 53 54 TNormal 150 [55] 0); (mkTx 56 57 TNormal 5000 [58] 0)] [52; 55; 58] 5150 true true [(46, mkTx 59 60 TGoldenTicket 0 [] 0)]) 19 1100000 (Some (mkTx 13 14 TBlockStake 0 [] 0)) [51; 57; 54] 61 (mkCv (mkE 5300 5300 0 5300 3128 3128 0 2650 2650 0 0 0 1157 1157 0 0 0 0 3 0 12649111 3) [] 0 0 (Some (mkTx 62 0 TFee 0 [] 0))) (mkCv (mkE 5300 5300 0 5300 3128 3128 0 2650 2650 0 0 0 1157 1157 0 0 0 0 3 0 12649111 3) [] 0 0 (Some (mkTx 62 0 TFee 0 [] 0))) [(50, true); (53, true); (56, true); (13, false); (59, true); (62, true)] [(59, false)] [([], 0)] [([59; 50; 56; 53; 62], 64)] true [[4]; [59; 50; 56; 53; 62]; [5; 1100000; 46; 0; 0; 2120]; [5300; 5300; 0; 5300; 3128; 3128; 0; 2650; 2650; 0; 0; 0; 1157; 1157; 0; 0; 0; 0; 3; 0; 12649111; 3]; [5150; 0; 0; 64]; [0; 0]; [51; 54; 57]; [5150; 1]; [46]].
+  mkRC (mkView (Some (mkPar 46 4 1075000 0 2120 5300 20000000 false)) false 0 10000 4414 true true) (mkM [(mkTx 50 51 TNormal 0 [52] 0 0 false); (mkTx 53 54 TNormal 150 [55] 0 0 false); (mkTx 56 57 TNormal 5000 [58] 0 0 false)] [52; 55; 58] 5150 true true [(46, mkTx 59 60 TGoldenTicket 0 [] 0 46 true)]) 19 1100000 (Some (mkTx 13 14 TBlockStake 0 [] 0 0 true)) [57; 54; 51] 61 (mkCv (mkE 5300 5300 0 5300 3128 3128 0 0 0 0 0 0 628 628 0 0 0 1 5 0 12649111 2) [] 0 0 None) (mkCv (mkE 5300 5300 0 5300 3128 3128 0 0 0 0 0 0 628 628 0 0 0 1 5 0 12649111 2) [] 0 0 None) [(50, true); (53, true); (56, true); (13, false)] [(59, false)] [([], 0)] [([56; 53; 50], 62)] true [[4]; [56; 53; 50]; [5; 1100000; 46; 5300; 0; 2120]; [5300; 5300; 0; 5300; 3128; 3128; 0; 0; 0; 0; 0; 0; 628; 628; 0; 0; 0; 1; 5; 0; 12649111; 2]; [5150; 0; 0; 62]; [1; 1]; []; [0; 0]; []].
 
-(* issuance: {"label": "issuance", "tip": 3, "gap_ms": 25000, "pool_size": 4, "cached_work": 5150, "work_needed": 0, "gt_for_tip": false, "outcome": "Rejected", "detail": "block 4 txs(types) [0, 6, 0, 0] producer Invalid second node Invalid; atr multiplier 1; diffs []; create-vs-validate cv []"} *)
+(* issuance: {"label": "issuance", "tip": 3, "gap_ms": 25000, "pool_ops": [{"op": "transfer", "payer": 2, "input": "1:14:0 amount 406002", "fee": 5000, "hops": 1, "pooled": true}, {"op": "transfer", "payer": 3, "input": "1:20:0 amount 404003", "fee": 300, "hops": 2, "pooled": true}, {"op": "transfer", "payer": 4, "input": "2:1:0 amount 404004", "fee": 0, "hops": 0, "pooled": true}, {"op": "issuance-typed", "pooled": true}], "pool_size": 4, "cached_work": 5150, "work_needed": 0, "gt_for_tip": false, "outcome": "Rejected", "detail": "block 4 txs(types) [0, 6, 0, 0] producer Invalid second node Invalid; atr multiplier 1; diffs []; create-vs-validate cv []"} *)
 Definition wit_issuance : rcase :=
-  mkRC (mkView (Some (mkPar 27 3 1050000 0 2120 5300 31622777 false)) false 0 10000 3268 true true) (mkM [(mkTx 31 32 TNormal 150 [33] 0); (mkTx 34 35 TNormal 0 [36] 0); (mkTx 37 38 TNormal 5000 [39] 0); (mkTx 40 41 TIssuance 0 [] 0)] [33; 36; 39] 5150 true true []) 15 1075000 (Some (mkTx 11 12 TBlockStake 0 [] 0)) [32; 41; 35; 38] 42 (mkCv (mkE 5300 5300 0 5300 2586 2586 0 0 0 0 0 0 255 255 0 0 0 1 5 0 20000000 0) [] 0 0 None) (mkCv (mkE 5300 5300 0 5300 2586 2586 0 0 0 0 0 0 255 255 0 0 0 1 5 0 20000000 0) [] 0 0 None) [(31, true); (34, true); (37, true); (40, true); (11, false)] [] [([], 0)] [([31; 40; 34; 37], 43)] true [[4]; [31; 40; 34; 37]; [4; 1075000; 27; 5300; 0; 2120]; [5300; 5300; 0; 5300; 2586; 2586; 0; 0; 0; 0; 0; 0; 255; 255; 0; 0; 0; 1; 5; 0; 20000000; 0]; [5150; 0; 0; 43]; [0; 0]; [32; 35; 38]; [5150; 1]; []].
+  mkRC (mkView (Some (mkPar 27 3 1050000 0 2120 5300 31622777 false)) false 0 10000 3348 true true) (mkM [(mkTx 31 32 TNormal 150 [33] 0 0 false); (mkTx 34 35 TNormal 0 [36] 0 0 false); (mkTx 37 38 TNormal 5000 [39] 0 0 false); (mkTx 40 41 TIssuance 0 [] 0 0 true)] [33; 36; 39] 5150 true true []) 15 1075000 (Some (mkTx 11 12 TBlockStake 0 [] 0 0 true)) [35; 41; 32; 38] 42 (mkCv (mkE 5300 5300 0 5300 2586 2586 0 0 0 0 0 0 255 255 0 0 0 1 5 0 20000000 0) [] 0 0 None) (mkCv (mkE 5300 5300 0 5300 2586 2586 0 0 0 0 0 0 255 255 0 0 0 1 5 0 20000000 0) [] 0 0 None) [(31, true); (34, true); (37, true); (40, true); (11, false)] [] [([], 0)] [([34; 40; 31; 37], 43)] true [[4]; [34; 40; 31; 37]; [4; 1075000; 27; 5300; 0; 2120]; [5300; 5300; 0; 5300; 2586; 2586; 0; 0; 0; 0; 0; 0; 255; 255; 0; 0; 0; 1; 5; 0; 20000000; 0]; [5150; 0; 0; 43]; [0; 0]; [32; 35; 38]; [5150; 1]; []].
 
-(* stake: {"label": "foreign-stake", "tip": 3, "gap_ms": 25000, "pool_size": 4, "cached_work": 5150, "work_needed": 0, "gt_for_tip": false, "outcome": "Rejected", "detail": "block 4 txs(types) [0, 0, 0, 7, 7] producer Invalid second node Invalid; atr multiplier 1; diffs []; create-vs-validate cv []"} *)
+(* stake: {"label": "foreign-stake", "tip": 3, "gap_ms": 25000, "pool_ops": [{"op": "transfer", "payer": 2, "input": "1:14:0 amount 406002", "fee": 5000, "hops": 1, "pooled": true}, {"op": "transfer", "payer": 3, "input": "1:20:0 amount 404003", "fee": 300, "hops": 2, "pooled": true}, {"op": "transfer", "payer": 4, "input": "2:1:0 amount 404004", "fee": 0, "hops": 0, "pooled": true}, {"op": "blockstake-typed-from-peer", "payer": 5, "pooled": false}], "pool_size": 3, "cached_work": 5150, "work_needed": 0, "gt_for_tip": false, "outcome": "Accepted", "detail": "block 4 txs(types) [0, 7, 0, 0] producer OnChain second node OnChain; atr multiplier 1; diffs []; create-vs-validate cv []"} *)
 Definition wit_stake : rcase :=
-  mkRC (mkView (Some (mkPar 31 3 1050000 0 2120 5300 31622777 false)) false 50000 10000 779 true true) (mkM [(mkTx 35 36 TNormal 150 [37] 0); (mkTx 38 39 TNormal 0 [40] 0); (mkTx 41 42 TBlockStake 0 [43] 0); (mkTx 44 45 TNormal 5000 [46] 0)] [37; 40; 43; 46] 5150 true true []) 16 1075000 (Some (mkTx 47 48 TBlockStake 0 [49] 0)) [45; 39; 36; 42; 48] 50 (mkCv (mkE 5300 5300 0 5300 2586 2586 0 0 0 0 0 0 255 255 0 0 0 1 5 0 20000000 0) [] 0 0 None) (mkCv (mkE 5300 5300 0 5300 2586 2586 0 0 0 0 0 0 255 255 0 0 0 1 5 0 20000000 0) [] 0 0 None) [(35, true); (38, true); (41, true); (44, true); (47, true)] [] [([], 0)] [([44; 38; 35; 41; 47], 51)] true [[4]; [44; 38; 35; 41; 47]; [4; 1075000; 31; 5300; 0; 2120]; [5300; 5300; 0; 5300; 2586; 2586; 0; 0; 0; 0; 0; 0; 255; 255; 0; 0; 0; 1; 5; 0; 20000000; 0]; [5150; 0; 0; 51]; [0; 0]; [36; 39; 45]; [5150; 1]; []].
+  mkRC (mkView (Some (mkPar 31 3 1050000 0 2120 5300 31622777 false)) false 50000 10000 3803 true true) (mkM [(mkTx 35 36 TNormal 150 [37] 0 0 false); (mkTx 38 39 TNormal 0 [40] 0 0 false); (mkTx 41 42 TNormal 5000 [43] 0 0 false)] [37; 40; 43] 5150 true true []) 16 1075000 (Some (mkTx 44 45 TBlockStake 0 [46] 0 0 true)) [36; 45; 42; 39] 47 (mkCv (mkE 5300 5300 0 5300 2586 2586 0 0 0 0 0 0 255 255 0 0 0 1 5 0 20000000 0) [] 0 0 None) (mkCv (mkE 5300 5300 0 5300 2586 2586 0 0 0 0 0 0 255 255 0 0 0 1 5 0 20000000 0) [] 0 0 None) [(35, true); (38, true); (41, true); (44, true)] [] [([], 0)] [([35; 44; 41; 38], 48)] true [[4]; [35; 44; 41; 38]; [4; 1075000; 31; 5300; 0; 2120]; [5300; 5300; 0; 5300; 2586; 2586; 0; 0; 0; 0; 0; 0; 255; 255; 0; 0; 0; 1; 5; 0; 20000000; 0]; [5150; 0; 0; 48]; [1; 1]; []; [0; 0]; []].
 
-(* clash: {"label": "rebroadcast-clash", "tip": 4, "gap_ms": 25000, "pool_size": 4, "cached_work": 5650, "work_needed": 0, "gt_for_tip": true, "outcome": "CreateFailed", "detail": ""} *)
+(* clash: {"label": "rebroadcast-clash", "tip": 4, "gap_ms": 25000, "pool_ops": [{"op": "transfer", "payer": 2, "input": "3:3:0 amount 398002", "fee": 5000, "hops": 1, "pooled": true}, {"op": "transfer", "payer": 3, "input": "3:1:0 amount 401703", "fee": 300, "hops": 2, "pooled": true}, {"op": "transfer", "payer": 4, "input": "4:2:0 amount 404004", "fee": 0, "hops": 0, "pooled": true}, {"op": "spend-output-due-for-rebroadcast", "payer": 5, "input": "1:32:0 amount 400005", "pooled": true}, {"op": "golden-ticket", "kind": "Valid", "tip_difficulty": 0}], "pool_size": 4, "cached_work": 5650, "work_needed": 0, "gt_for_tip": true, "outcome": "Accepted", "detail": "block 5 txs(types) [2, 0, 0, 0, 3, 3, 3, 3, 3, 3, 3, 3, 3, 3, 3, 3, 3, 3, 3, 3, 3, 3, 3, 3, 3, 3, 3, 3, 3, 3, 3, 3, 3, 3, 3, 3, 1] producer OnChain second node OnChain; atr multiplier 1; diffs []; create-vs-validate cv []"} *)
 Definition wit_clash : rcase :=
-  mkRC (mkView (Some (mkPar 40 4 1075000 0 2 5300 20000000 false)) false 0 10000 1042 true true) (mkM [(mkTx 42 43 TNormal 500 [44] 0); (mkTx 45 46 TNormal 5000 [47] 0); (mkTx 48 49 TNormal 150 [50] 0); (mkTx 51 52 TNormal 0 [53] 0)] [44; 47; 50; 53] 5650 true true [(40, mkTx 54 55 TGoldenTicket 0 [] 0)]) 15 1100000 (Some (mkTx 11 12 TBlockStake 0 [] 0)) [43; 46; 49; 52; 12] 0 (mkCv (mkE 9728 0 9728 9728 5728 2486 3242 5300 2650 2650 0 0 2159 1276 883 0 0 2 0 8560372 12649111 0) [(mkTx 56 57 TATR 0 [58] 1); (mkTx 59 60 TATR 0 [61] 1); (mkTx 62 63 TATR 0 [64] 1); (mkTx 65 66 TATR 0 [67] 1); (mkTx 68 69 TATR 0 [70] 1); (mkTx 71 72 TATR 0 [73] 1); (mkTx 74 75 TATR 0 [76] 1); (mkTx 77 78 TATR 0 [79] 1); (mkTx 80 81 TATR 0 [82] 1); (mkTx 83 84 TATR 0 [85] 1); (mkTx 86 87 TATR 0 [88] 1); (mkTx 89 90 TATR 0 [91] 1); (mkTx 92 93 TATR 0 [94] 1); (mkTx 95 96 TATR 0 [97] 1); (mkTx 98 99 TATR 0 [100] 1); (mkTx 101 102 TATR 0 [103] 1); (mkTx 104 105 TATR 0 [106] 1); (mkTx 107 108 TATR 0 [109] 1); (mkTx 110 111 TATR 0 [112] 1); (mkTx 113 114 TATR 0 [115] 1); (mkTx 116 117 TATR 0 [118] 1); (mkTx 119 120 TATR 0 [121] 1); (mkTx 122 123 TATR 0 [124] 1); (mkTx 125 126 TATR 0 [127] 1); (mkTx 128 129 TATR 0 [44] 1); (mkTx 130 131 TATR 0 [132] 1); (mkTx 133 134 TATR 0 [135] 1); (mkTx 136 137 TATR 0 [138] 1); (mkTx 139 140 TATR 0 [141] 1); (mkTx 142 143 TATR 0 [144] 1); (mkTx 145 146 TATR 0 [147] 1); (mkTx 148 149 TATR 0 [150] 1)] 32 152 (Some (mkTx 151 0 TFee 0 [] 0))) (mkCv (mkE 9728 0 9728 9728 5728 2486 3242 5300 2650 2650 0 0 2159 1276 883 0 0 2 0 8560372 12649111 0) [(mkTx 56 57 TATR 0 [58] 1); (mkTx 59 60 TATR 0 [61] 1); (mkTx 62 63 TATR 0 [64] 1); (mkTx 65 66 TATR 0 [67] 1); (mkTx 68 69 TATR 0 [70] 1); (mkTx 71 72 TATR 0 [73] 1); (mkTx 74 75 TATR 0 [76] 1); (mkTx 77 78 TATR 0 [79] 1); (mkTx 80 81 TATR 0 [82] 1); (mkTx 83 84 TATR 0 [85] 1); (mkTx 86 87 TATR 0 [88] 1); (mkTx 89 90 TATR 0 [91] 1); (mkTx 92 93 TATR 0 [94] 1); (mkTx 95 96 TATR 0 [97] 1); (mkTx 98 99 TATR 0 [100] 1); (mkTx 101 102 TATR 0 [103] 1); (mkTx 104 105 TATR 0 [106] 1); (mkTx 107 108 TATR 0 [109] 1); (mkTx 110 111 TATR 0 [112] 1); (mkTx 113 114 TATR 0 [115] 1); (mkTx 116 117 TATR 0 [118] 1); (mkTx 119 120 TATR 0 [121] 1); (mkTx 122 123 TATR 0 [124] 1); (mkTx 125 126 TATR 0 [127] 1); (mkTx 128 129 TATR 0 [44] 1); (mkTx 130 131 TATR 0 [132] 1); (mkTx 133 134 TATR 0 [135] 1); (mkTx 136 137 TATR 0 [138] 1); (mkTx 139 140 TATR 0 [141] 1); (mkTx 142 143 TATR 0 [144] 1); (mkTx 145 146 TATR 0 [147] 1); (mkTx 148 149 TATR 0 [150] 1)] 32 152 (Some (mkTx 151 0 TFee 0 [] 0))) [(42, true); (45, true); (48, true); (51, true); (11, false)] [] [([], 0)] [] true [[3]; []; [0; 1]; [40]].
+  mkRC (mkView (Some (mkPar 40 4 1075000 0 2 5300 20000000 false)) false 0 10000 1452 true true) (mkM [(mkTx 42 43 TNormal 500 [44] 0 0 false); (mkTx 45 46 TNormal 5000 [47] 0 0 false); (mkTx 48 49 TNormal 150 [50] 0 0 false); (mkTx 51 52 TNormal 0 [53] 0 0 false)] [44; 47; 50; 53] 5650 true true [(40, mkTx 54 55 TGoldenTicket 0 [] 0 40 true)]) 15 1100000 (Some (mkTx 11 12 TBlockStake 0 [] 0 0 true)) [46; 49; 52] 56 (mkCv (mkE 15028 5300 9728 15028 7495 4252 3242 5300 2650 2650 0 0 2159 1276 883 0 0 2 3 8560372 12649111 0) [(mkTx 57 58 TATR 0 [59] 1 0 true); (mkTx 60 61 TATR 0 [62] 1 0 true); (mkTx 63 64 TATR 0 [65] 1 0 true); (mkTx 66 67 TATR 0 [68] 1 0 true); (mkTx 69 70 TATR 0 [71] 1 0 true); (mkTx 72 73 TATR 0 [74] 1 0 true); (mkTx 75 76 TATR 0 [77] 1 0 true); (mkTx 78 79 TATR 0 [80] 1 0 true); (mkTx 81 82 TATR 0 [83] 1 0 false); (mkTx 84 85 TATR 0 [86] 1 0 false); (mkTx 87 88 TATR 0 [89] 1 0 false); (mkTx 90 91 TATR 0 [92] 1 0 false); (mkTx 93 94 TATR 0 [95] 1 0 false); (mkTx 96 97 TATR 0 [98] 1 0 false); (mkTx 99 100 TATR 0 [101] 1 0 false); (mkTx 102 103 TATR 0 [104] 1 0 false); (mkTx 105 106 TATR 0 [107] 1 0 false); (mkTx 108 109 TATR 0 [110] 1 0 false); (mkTx 111 112 TATR 0 [113] 1 0 false); (mkTx 114 115 TATR 0 [116] 1 0 false); (mkTx 117 118 TATR 0 [119] 1 0 false); (mkTx 120 121 TATR 0 [122] 1 0 false); (mkTx 123 124 TATR 0 [125] 1 0 false); (mkTx 126 127 TATR 0 [128] 1 0 false); (mkTx 129 130 TATR 0 [44] 1 0 false); (mkTx 131 132 TATR 0 [133] 1 0 false); (mkTx 134 135 TATR 0 [136] 1 0 false); (mkTx 137 138 TATR 0 [139] 1 0 false); (mkTx 140 141 TATR 0 [142] 1 0 false); (mkTx 143 144 TATR 0 [145] 1 0 false); (mkTx 146 147 TATR 0 [148] 1 0 false); (mkTx 149 150 TATR 0 [151] 1 0 false)] 32 154 (Some (mkTx 152 0 TFee 0 [] 0 0 true))) (mkCv (mkE 15028 5300 9728 15028 7495 4252 3242 5300 2650 2650 0 0 2159 1276 883 0 0 2 3 8560372 12649111 0) [(mkTx 57 58 TATR 0 [59] 1 0 true); (mkTx 60 61 TATR 0 [62] 1 0 true); (mkTx 63 64 TATR 0 [65] 1 0 true); (mkTx 66 67 TATR 0 [68] 1 0 true); (mkTx 69 70 TATR 0 [71] 1 0 true); (mkTx 72 73 TATR 0 [74] 1 0 true); (mkTx 75 76 TATR 0 [77] 1 0 true); (mkTx 78 79 TATR 0 [80] 1 0 true); (mkTx 81 82 TATR 0 [83] 1 0 false); (mkTx 84 85 TATR 0 [86] 1 0 false); (mkTx 87 88 TATR 0 [89] 1 0 false); (mkTx 90 91 TATR 0 [92] 1 0 false); (mkTx 93 94 TATR 0 [95] 1 0 false); (mkTx 96 97 TATR 0 [98] 1 0 false); (mkTx 99 100 TATR 0 [101] 1 0 false); (mkTx 102 103 TATR 0 [104] 1 0 false); (mkTx 105 106 TATR 0 [107] 1 0 false); (mkTx 108 109 TATR 0 [110] 1 0 false); (mkTx 111 112 TATR 0 [113] 1 0 false); (mkTx 114 115 TATR 0 [116] 1 0 false); (mkTx 117 118 TATR 0 [119] 1 0 false); (mkTx 120 121 TATR 0 [122] 1 0 false); (mkTx 123 124 TATR 0 [125] 1 0 false); (mkTx 126 127 TATR 0 [128] 1 0 false); (mkTx 129 130 TATR 0 [44] 1 0 false); (mkTx 131 132 TATR 0 [133] 1 0 false); (mkTx 134 135 TATR 0 [136] 1 0 false); (mkTx 137 138 TATR 0 [139] 1 0 false); (mkTx 140 141 TATR 0 [142] 1 0 false); (mkTx 143 144 TATR 0 [145] 1 0 false); (mkTx 146 147 TATR 0 [148] 1 0 false); (mkTx 149 150 TATR 0 [151] 1 0 false)] 32 154 (Some (mkTx 152 0 TFee 0 [] 0 0 true))) [(42, true); (45, true); (48, true); (51, true); (11, false); (54, true); (57, true); (60, true); (63, true); (66, true); (69, true); (72, true); (75, true); (78, true); (81, true); (84, true); (87, true); (90, true); (93, true); (96, true); (99, true); (102, true); (105, true); (108, true); (111, true); (114, true); (117, true); (120, true); (123, true); (126, true); (129, true); (131, true); (134, true); (137, true); (140, true); (143, true); (146, true); (149, true); (152, true)] [(54, true)] [([57; 60; 63; 66; 69; 72; 75; 78; 81; 84; 87; 90; 93; 96; 99; 102; 105; 108; 111; 114; 117; 120; 123; 126; 129; 131; 134; 137; 140; 143; 146; 149], 154); ([], 0)] [([54; 45; 48; 51; 57; 60; 63; 66; 69; 72; 75; 78; 81; 84; 87; 90; 93; 96; 99; 102; 105; 108; 111; 114; 117; 120; 123; 126; 129; 131; 134; 137; 140; 143; 146; 149; 152], 155)] true [[4]; [54; 45; 48; 51; 57; 60; 63; 66; 69; 72; 75; 78; 81; 84; 87; 90; 93; 96; 99; 102; 105; 108; 111; 114; 117; 120; 123; 126; 129; 131; 134; 137; 140; 143; 146; 149; 152]; [5; 1100000; 40; 0; 2650; 2]; [15028; 5300; 9728; 15028; 7495; 4252; 3242; 5300; 2650; 2650; 0; 0; 2159; 1276; 883; 0; 0; 2; 3; 8560372; 12649111; 0]; [5150; 32; 154; 155]; [1; 1]; []; [0; 0]; []].
 
-(* ts: {"label": "timestamp-order", "tip": 3, "gap_ms": 0, "pool_size": 3, "cached_work": 5150, "work_needed": 10000000000000000000, "gt_for_tip": false, "outcome": "GateClosed", "detail": ""} *)
+(* ts: {"label": "timestamp-order", "tip": 3, "gap_ms": 0, "pool_ops": [{"op": "transfer", "payer": 2, "input": "1:14:0 amount 406002", "fee": 5000, "hops": 1, "pooled": true}, {"op": "transfer", "payer": 3, "input": "1:20:0 amount 404003", "fee": 300, "hops": 2, "pooled": true}, {"op": "transfer", "payer": 4, "input": "2:0:0 amount 404004", "fee": 0, "hops": 0, "pooled": true}], "pool_size": 3, "cached_work": 5150, "work_needed": 10000000000000000000, "gt_for_tip": false, "outcome": "GateClosed", "detail": ""} *)
 Definition wit_ts : rcase :=
-  mkRC (mkView (Some (mkPar 27 3 1050000 0 2120 5300 31622777 false)) false 0 10000 4868 true true) (mkM [(mkTx 31 32 TNormal 150 [33] 0); (mkTx 34 35 TNormal 0 [36] 0); (mkTx 37 38 TNormal 5000 [39] 0)] [33; 36; 39] 5150 true true []) 15 1050000 (Some (mkTx 11 12 TBlockStake 0 [] 0)) [32; 35; 38; 12] 0 (mkCv econ0 [] 0 0 None) (mkCv econ0 [] 0 0 None) [(31, true); (34, true); (37, true); (11, false)] [] [([], 0)] [] true [[1]; [32; 35; 38]; [5150; 1]; []].
+  mkRC (mkView (Some (mkPar 27 3 1050000 0 2120 5300 31622777 false)) false 0 10000 2203 true true) (mkM [(mkTx 31 32 TNormal 150 [33] 0 0 false); (mkTx 34 35 TNormal 0 [36] 0 0 false); (mkTx 37 38 TNormal 5000 [39] 0 0 false)] [33; 36; 39] 5150 true true []) 15 1050000 (Some (mkTx 11 12 TBlockStake 0 [] 0 0 true)) [32; 35; 38; 12] 0 (mkCv econ0 [] 0 0 None) (mkCv econ0 [] 0 0 None) [(31, true); (34, true); (37, true); (11, false)] [] [([], 0)] [] true [[1]; [32; 35; 38]; [5150; 1]; []].
 
-(* dust: {"label": "dust-spend", "tip": 4, "gap_ms": 25000, "pool_size": 5, "cached_work": 80500, "work_needed": 0, "gt_for_tip": true, "outcome": "Rejected", "detail": "block 5 txs(types) [2, 0, 0, 0, 0, 0, 1] producer Panicked second node Panicked; atr multiplier 1; diffs []; create-vs-validate cv []"} *)
+(* dust: {"label": "dust-spend", "tip": 4, "gap_ms": 25000, "pool_ops": [{"op": "transfer", "payer": 2, "input": "4:3:0 amount 940002", "fee": 20000, "hops": 1, "pooled": true}, {"op": "transfer", "payer": 3, "input": "4:0:1 amount 626669", "fee": 20000, "hops": 1, "pooled": true}, {"op": "transfer", "payer": 4, "input": "4:1:0 amount 620003", "fee": 20000, "hops": 1, "pooled": true}, {"op": "transfer", "payer": 5, "input": "4:2:0 amount 613337", "fee": 20000, "hops": 1, "pooled": true}, {"op": "spend-output-due-for-rebroadcast", "payer": 2, "input": "1:1:0 amount 2002", "pooled": true}, {"op": "golden-ticket", "kind": "Valid", "tip_difficulty": 0}], "pool_size": 5, "cached_work": 80500, "work_needed": 0, "gt_for_tip": true, "outcome": "Rejected", "detail": "block 5 txs(types) [2, 0, 0, 0, 0, 0, 1] producer Panicked second node Panicked; atr multiplier 1; diffs []; create-vs-validate cv []"} *)
 Definition wit_dust : rcase :=
-  mkRC (mkView (Some (mkPar 49 4 1075000 0 2 80000 20000000 false)) false 0 10000 2743 true true) (mkM [(mkTx 51 52 TNormal 20000 [53] 0); (mkTx 54 55 TNormal 20000 [56] 0); (mkTx 57 58 TNormal 20000 [59] 0); (mkTx 60 61 TNormal 500 [62] 0); (mkTx 63 64 TNormal 20000 [65] 0)] [53; 56; 59; 62; 65] 80500 true true [(49, mkTx 66 67 TGoldenTicket 0 [] 0)]) 18 1100000 (Some (mkTx 14 15 TBlockStake 0 [] 0)) [64; 55; 52; 58; 61] 68 (mkCv (mkE 96928 80500 16428 80500 69840 64364 5476 80000 40000 40000 0 0 32592 19259 13333 0 0 36 37 5476 12649111 0) [] 0 0 (Some (mkTx 69 0 TFee 0 [] 0))) (mkCv (mkE 96928 80500 16428 80500 69840 64364 5476 80000 40000 40000 0 0 32592 19259 13333 0 0 36 37 5476 12649111 0) [] 0 0 (Some (mkTx 69 0 TFee 0 [] 0))) [(51, true); (54, true); (57, true); (60, true); (63, true); (14, false); (66, true); (69, true)] [(66, true)] [([], 0)] [([66; 63; 54; 51; 57; 60; 69], 71)] false [[4]; [66; 63; 54; 51; 57; 60; 69]; [5; 1100000; 49; 0; 40000; 2]; [96928; 80500; 16428; 80500; 69840; 64364; 5476; 80000; 40000; 40000; 0; 0; 32592; 19259; 13333; 0; 0; 36; 37; 5476; 12649111; 0]; [80500; 0; 0; 71]; [905; 905]; []; [0; 0]; [49]].
+  mkRC (mkView (Some (mkPar 49 4 1075000 0 2 80000 20000000 false)) false 0 10000 1658 true true) (mkM [(mkTx 51 52 TNormal 20000 [53] 0 0 false); (mkTx 54 55 TNormal 20000 [56] 0 0 false); (mkTx 57 58 TNormal 20000 [59] 0 0 false); (mkTx 60 61 TNormal 500 [62] 0 0 false); (mkTx 63 64 TNormal 20000 [65] 0 0 false)] [53; 56; 59; 62; 65] 80500 true true [(49, mkTx 66 67 TGoldenTicket 0 [] 0 49 true)]) 18 1100000 (Some (mkTx 14 15 TBlockStake 0 [] 0 0 true)) [52; 58; 61; 64; 55] 68 (mkCv (mkE 96928 80500 16428 80500 69840 64364 5476 80000 40000 40000 0 0 32592 19259 13333 0 0 36 37 5476 12649111 0) [] 0 0 (Some (mkTx 69 0 TFee 0 [] 0 0 true))) (mkCv (mkE 96928 80500 16428 80500 69840 64364 5476 80000 40000 40000 0 0 32592 19259 13333 0 0 36 37 5476 12649111 0) [] 0 0 (Some (mkTx 69 0 TFee 0 [] 0 0 true))) [(51, true); (54, true); (57, true); (60, true); (63, true); (14, false); (66, true); (69, true)] [(66, true)] [([], 0)] [([66; 51; 57; 60; 63; 54; 69], 71)] false [[4]; [66; 51; 57; 60; 63; 54; 69]; [5; 1100000; 49; 0; 40000; 2]; [96928; 80500; 16428; 80500; 69840; 64364; 5476; 80000; 40000; 40000; 0; 0; 32592; 19259; 13333; 0; 0; 36; 37; 5476; 12649111; 0]; [80500; 0; 0; 71]; [905; 905]; []; [0; 0]; [49]].
 
-(* ok: {"label": "work-gated", "tip": 10, "gap_ms": 10000, "pool_size": 3, "cached_work": 5150, "work_needed": 2000, "gt_for_tip": true, "outcome": "Accepted", "detail": "block 11 txs(types) [2, 7, 0, 0, 0, 3, 1] producer OnChain second node OnChain; atr multiplier 1; diffs []; create-vs-validate cv []"} *)
+(* leftout: {"label": "left-out-transaction-carried-the-work", "tip": 8, "gap_ms": 15000, "pool_ops": [{"op": "spend-output-due-for-rebroadcast", "payer": 5, "input": "5:28:0 amount 399701", "pooled": true}, {"op": "transfer", "payer": 4, "input": "8:4:0 amount 402700", "fee": 0, "hops": 0, "pooled": true}], "pool_size": 2, "cached_work": 60000, "work_needed": 213, "gt_for_tip": false, "outcome": "Rejected", "detail": "block 9 txs(types) [0, 3, 3, 3, 3, 3, 3, 3, 3, 3, 3, 3, 3, 3, 3, 3, 3, 3, 3, 3, 3, 3, 3, 3, 3, 3, 3, 3, 3, 3] producer Invalid second node Invalid; atr multiplier 1; diffs [\"total_work 0 below work needed 213 (cached pool work was 60000)\"]; create-vs-validate cv []"} *)
+Definition wit_leftout : rcase :=
+  mkRC (mkView (Some (mkPar 216 8 1175000 2650 7516 6924 3200000 false)) false 0 10000 3055 true true) (mkM [(mkTx 225 226 TNormal 60000 [227] 0 0 false); (mkTx 228 229 TNormal 0 [230] 0 0 false)] [227; 230] 60000 true true []) 15 1190000 (Some (mkTx 11 12 TBlockStake 0 [] 0 0 true)) [229] 231 (mkCv (mkE 20148 0 20148 20148 11392 3326 8065 0 0 0 0 0 2412 2237 0 0 0 2 0 9758781 2612789 3) [(mkTx 232 49 TATR 0 [233] 1 0 false); (mkTx 234 43 TATR 0 [235] 1 0 false); (mkTx 236 55 TATR 0 [237] 1 0 true); (mkTx 238 58 TATR 0 [239] 1 0 true); (mkTx 240 61 TATR 0 [241] 1 0 true); (mkTx 242 64 TATR 0 [243] 1 0 true); (mkTx 244 67 TATR 0 [245] 1 0 true); (mkTx 246 70 TATR 0 [247] 1 0 true); (mkTx 248 73 TATR 0 [249] 1 0 true); (mkTx 250 76 TATR 0 [251] 1 0 true); (mkTx 252 82 TATR 0 [253] 1 0 false); (mkTx 254 91 TATR 0 [255] 1 0 false); (mkTx 256 94 TATR 0 [257] 1 0 false); (mkTx 258 97 TATR 0 [259] 1 0 false); (mkTx 260 103 TATR 0 [261] 1 0 false); (mkTx 262 109 TATR 0 [263] 1 0 false); (mkTx 264 112 TATR 0 [265] 1 0 false); (mkTx 266 121 TATR 0 [267] 1 0 false); (mkTx 268 127 TATR 0 [227] 1 0 false); (mkTx 269 130 TATR 0 [270] 1 0 false); (mkTx 271 133 TATR 0 [272] 1 0 false); (mkTx 273 136 TATR 0 [274] 1 0 false); (mkTx 275 139 TATR 0 [276] 1 0 false); (mkTx 277 142 TATR 0 [278] 1 0 false); (mkTx 279 145 TATR 0 [280] 1 0 false); (mkTx 281 148 TATR 0 [282] 1 0 false); (mkTx 283 151 TATR 0 [284] 1 0 true); (mkTx 285 151 TATR 0 [286] 1 0 true); (mkTx 287 151 TATR 0 [288] 1 0 true)] 29 289 None) (mkCv (mkE 20148 0 20148 20148 11392 3326 8065 0 0 0 0 0 2412 2237 0 0 0 2 0 9758781 2612789 3) [(mkTx 232 49 TATR 0 [233] 1 0 false); (mkTx 234 43 TATR 0 [235] 1 0 false); (mkTx 236 55 TATR 0 [237] 1 0 true); (mkTx 238 58 TATR 0 [239] 1 0 true); (mkTx 240 61 TATR 0 [241] 1 0 true); (mkTx 242 64 TATR 0 [243] 1 0 true); (mkTx 244 67 TATR 0 [245] 1 0 true); (mkTx 246 70 TATR 0 [247] 1 0 true); (mkTx 248 73 TATR 0 [249] 1 0 true); (mkTx 250 76 TATR 0 [251] 1 0 true); (mkTx 252 82 TATR 0 [253] 1 0 false); (mkTx 254 91 TATR 0 [255] 1 0 false); (mkTx 256 94 TATR 0 [257] 1 0 false); (mkTx 258 97 TATR 0 [259] 1 0 false); (mkTx 260 103 TATR 0 [261] 1 0 false); (mkTx 262 109 TATR 0 [263] 1 0 false); (mkTx 264 112 TATR 0 [265] 1 0 false); (mkTx 266 121 TATR 0 [267] 1 0 false); (mkTx 268 127 TATR 0 [227] 1 0 false); (mkTx 269 130 TATR 0 [270] 1 0 false); (mkTx 271 133 TATR 0 [272] 1 0 false); (mkTx 273 136 TATR 0 [274] 1 0 false); (mkTx 275 139 TATR 0 [276] 1 0 false); (mkTx 277 142 TATR 0 [278] 1 0 false); (mkTx 279 145 TATR 0 [280] 1 0 false); (mkTx 281 148 TATR 0 [282] 1 0 false); (mkTx 283 151 TATR 0 [284] 1 0 true); (mkTx 285 151 TATR 0 [286] 1 0 true); (mkTx 287 151 TATR 0 [288] 1 0 true)] 29 289 None) [(225, true); (228, true); (11, false); (232, true); (234, true); (236, true); (238, true); (240, true); (242, true); (244, true); (246, true); (248, true); (250, true); (252, true); (254, true); (256, true); (258, true); (260, true); (262, true); (264, true); (266, true); (268, true); (269, true); (271, true); (273, true); (275, true); (277, true); (279, true); (281, true); (283, true); (285, true); (287, true)] [] [([232; 234; 236; 238; 240; 242; 244; 246; 248; 250; 252; 254; 256; 258; 260; 262; 264; 266; 268; 269; 271; 273; 275; 277; 279; 281; 283; 285; 287], 289); ([], 0)] [([228; 232; 234; 236; 238; 240; 242; 244; 246; 248; 250; 252; 254; 256; 258; 260; 262; 264; 266; 268; 269; 271; 273; 275; 277; 279; 281; 283; 285; 287], 290)] true [[4]; [228; 232; 234; 236; 238; 240; 242; 244; 246; 248; 250; 252; 254; 256; 258; 260; 262; 264; 266; 268; 269; 271; 273; 275; 277; 279; 281; 283; 285; 287]; [9; 1190000; 216; 6924; 2650; 7516]; [20148; 0; 20148; 20148; 11392; 3326; 8065; 0; 0; 0; 0; 0; 2412; 2237; 0; 0; 0; 2; 0; 9758781; 2612789; 3]; [0; 29; 289; 290]; [0; 0]; [229]; [0; 1]; []].
+
+(* ok: {"label": "work-gated", "tip": 10, "gap_ms": 10000, "pool_ops": [{"op": "transfer", "payer": 2, "input": "10:9:0 amount 402002", "fee": 5000, "hops": 1, "pooled": true}, {"op": "transfer", "payer": 3, "input": "9:2:0 amount 406403", "fee": 300, "hops": 2, "pooled": true}, {"op": "transfer", "payer": 4, "input": "10:17:0 amount 407004", "fee": 0, "hops": 0, "pooled": true}, {"op": "golden-ticket", "kind": "Valid", "tip_difficulty": 0}], "pool_size": 3, "cached_work": 5150, "work_needed": 2000, "gt_for_tip": true, "outcome": "Accepted", "detail": "block 11 txs(types) [2, 0, 7, 0, 0, 3, 1] producer OnChain second node OnChain; atr multiplier 1; diffs []; create-vs-validate cv []"} *)
 Definition wit_ok : rcase :=
-  mkRC (mkView (Some (mkPar 135 10 1124998 7922 3426 5300 20001000 false)) false 50000 10000 1150 true true) (mkM [(mkTx 204 205 TNormal 5000 [206] 0); (mkTx 207 208 TNormal 150 [209] 0); (mkTx 210 211 TNormal 0 [212] 0)] [206; 209; 212] 5150 true true [(135, mkTx 213 214 TGoldenTicket 0 [] 0)]) 16 1134998 (Some (mkTx 76 77 TBlockStake 0 [215] 0)) [77; 211; 205; 208] 216 (mkCv (mkE 5300 5300 0 5300 3903 3903 0 5300 2650 2650 0 0 1895 969 331 0 0 0 3 1912930 20001000 0) [(mkTx 217 12 TATR 0 [218] 1)] 1 221 (Some (mkTx 219 0 TFee 0 [] 0))) (mkCv (mkE 5300 5300 0 5300 3903 3903 0 5300 2650 2650 0 0 1895 969 331 0 0 0 3 1912930 20001000 0) [(mkTx 217 12 TATR 0 [218] 1)] 1 221 (Some (mkTx 219 0 TFee 0 [] 0))) [(204, true); (207, true); (210, true); (76, true); (213, true); (217, true); (219, true)] [(213, true)] [([217], 221); ([], 0)] [([213; 76; 210; 204; 207; 217; 219], 222)] true [[4]; [213; 76; 210; 204; 207; 217; 219]; [11; 1134998; 135; 0; 10572; 3426]; [5300; 5300; 0; 5300; 3903; 3903; 0; 5300; 2650; 2650; 0; 0; 1895; 969; 331; 0; 0; 0; 3; 1912930; 20001000; 0]; [5150; 1; 221; 222]; [1; 1]; []; [0; 0]; []].
+  mkRC (mkView (Some (mkPar 135 10 1124998 7922 3426 5300 20001000 false)) false 50000 10000 3915 true true) (mkM [(mkTx 204 205 TNormal 5000 [206] 0 0 false); (mkTx 207 208 TNormal 150 [209] 0 0 false); (mkTx 210 211 TNormal 0 [212] 0 0 false)] [206; 209; 212] 5150 true true [(135, mkTx 213 214 TGoldenTicket 0 [] 0 135 true)]) 16 1134998 (Some (mkTx 76 77 TBlockStake 0 [215] 0 0 true)) [208; 77; 205; 211] 216 (mkCv (mkE 5300 5300 0 5300 3903 3903 0 5300 2650 2650 0 0 1895 969 331 0 0 0 3 1912930 20001000 0) [(mkTx 217 12 TATR 0 [218] 1 0 true)] 1 221 (Some (mkTx 219 0 TFee 0 [] 0 0 true))) (mkCv (mkE 5300 5300 0 5300 3903 3903 0 5300 2650 2650 0 0 1895 969 331 0 0 0 3 1912930 20001000 0) [(mkTx 217 12 TATR 0 [218] 1 0 true)] 1 221 (Some (mkTx 219 0 TFee 0 [] 0 0 true))) [(204, true); (207, true); (210, true); (76, true); (213, true); (217, true); (219, true)] [(213, true)] [([217], 221); ([], 0)] [([213; 207; 76; 204; 210; 217; 219], 222)] true [[4]; [213; 207; 76; 204; 210; 217; 219]; [11; 1134998; 135; 0; 10572; 3426]; [5300; 5300; 0; 5300; 3903; 3903; 0; 5300; 2650; 2650; 0; 0; 1895; 969; 331; 0; 0; 0; 3; 1912930; 20001000; 0]; [5150; 1; 221; 222]; [1; 1]; []; [0; 0]; []].
 
 
-(* the full statement fails: parent.treasury >= genesis_period * parent.avg_nolan_rebroadcast_per_block > 0
+(* STILL REFUTED.  The full statement fails: parent.treasury >= genesis_period * parent.avg_nolan_rebroadcast_per_block > 0
    and one output is rebroadcast.  cv's own rebroadcast hash (taken before the 5%-of-treasury
    cap rewrites the output amounts; in create the cap compares with the still-zero header
    treasury) is not the hash of the transactions it returns, and the rebroadcast's input
@@ -272,16 +322,7 @@ Example C07_produced_validates_refuted_cap : exists b,
   /\ run_rcase wn0 wit_cap = rc_expected wit_cap.
 Proof. eexists. split; [vm_compute; reflexivity|]. repeat split; vm_compute; reflexivity. Qed.
 
-(* pooled golden ticket with an invalid solution *)
-Example C07_produced_validates_refuted_gt : exists b g,
-  rc_created wit_gt = Ok b
-  /\ rc_gt wit_gt = Some g /\ rc_gtf wit_gt tt g = false
-  /\ rc_known wit_gt b = true
-  /\ rc_accepts wn0 wit_gt b = Ok false
-  /\ run_rcase wn0 wit_gt = rc_expected wit_gt.
-Proof. eexists. eexists. split; [vm_compute; reflexivity|]. split; [vm_compute; reflexivity|]. repeat split; vm_compute; reflexivity. Qed.
-
-(* Issuance-typed transaction in the pool *)
+(* STILL REFUTED.  Issuance-typed transaction in the pool *)
 Example C07_produced_validates_refuted_issuance : exists b,
   rc_created wit_issuance = Ok b
   /\ 0 < count_type TIssuance (rc_drained wit_issuance)
@@ -290,27 +331,63 @@ Example C07_produced_validates_refuted_issuance : exists b,
   /\ run_rcase wn0 wit_issuance = rc_expected wit_issuance.
 Proof. eexists. split; [vm_compute; reflexivity|]. repeat split; vm_compute; reflexivity. Qed.
 
-(* staking required and a second BlockStake transaction (from a peer) in the pool *)
-Example C07_produced_validates_refuted_stake : exists b,
-  rc_created wit_stake = Ok b
-  /\ count_type TBlockStake (rc_drained wit_stake) = 2
-  /\ rc_known wit_stake b = true
-  /\ rc_accepts wn0 wit_stake b = Ok false
-  /\ run_rcase wn0 wit_stake = rc_expected wit_stake.
+(* STILL REFUTED (new with fix 1214e31).  The only routing work of the pool sits in a transaction
+   that Block::create leaves out (it spends an output this block rebroadcasts): can_bundle_block
+   passed on the cached work 60000 >= 213 needed, the block is built from what is left (work 0)
+   and fails the routing-work check of its own validation on both nodes *)
+Definition wn_leftout : N -> N -> N -> N -> N := fun _ _ _ _ => 213.
+Example C07_left_out_work_refuted : exists b w,
+  rc_created wit_leftout = Ok b
+  /\ can_bundle unit (rc_viewf wit_leftout) wn_leftout rc_node (rc_pool wit_leftout) (rc_ts wit_leftout)
+                (is_some (rc_gt wit_leftout)) = Some w
+  /\ rc_known wit_leftout b = false
+  /\ nsum (map t_work (b_txs (fst (rc_pre wit_leftout)))) < 213 <= w
+  /\ Nlen (b_txs (fst (rc_pre wit_leftout))) < Nlen (rc_drained wit_leftout)
+  /\ rc_accepts wn_leftout wit_leftout b = Ok false
+  /\ run_rcase wn_leftout wit_leftout = rc_expected wit_leftout.
+Proof.
+  eexists. eexists. split; [vm_compute; reflexivity|]. split; [vm_compute; reflexivity|].
+  repeat split; vm_compute; try reflexivity; try discriminate.
+Qed.
+
+(* REGRESSION (fix e0300b2; was C07_produced_validates_refuted_gt).  The pool holds a ticket for
+   the tip whose solution does not validate: bundle_block goes on without a ticket, the block is
+   accepted by both nodes, and the ticket is gone from the pool *)
+Example C07_invalid_ticket_regression : exists g,
+  pick_gt (rc_pool wit_gt) (rc_tip_hash wit_gt) = Some g /\ rc_gtf wit_gt tt g = false
+  /\ rc_gt wit_gt = None
+  /\ hd [] (run_rcase wn0 wit_gt) = [4]
+  /\ nth 5 (run_rcase wn0 wit_gt) [] = [1; 1]
+  /\ nth 8 (run_rcase wn0 wit_gt) [7] = []
+  /\ run_rcase wn0 wit_gt = rc_expected wit_gt.
 Proof. eexists. split; [vm_compute; reflexivity|]. repeat split; vm_compute; reflexivity. Qed.
 
-(* a pooled transaction spends an output that this block rebroadcasts: create fails after
-   the drain, no block, empty pool *)
-Example C07_rebroadcast_clash_witness :
-  rc_created wit_clash = Err
-  /\ run_rcase wn0 wit_clash = rc_expected wit_clash
-  /\ hd [] (rc_expected wit_clash) = [3]
-  /\ m_txs (rc_pool wit_clash) <> [] /\ nth 1 (rc_expected wit_clash) [1] = [].
-Proof. repeat split; try (vm_compute; reflexivity). vm_compute. discriminate. Qed.
+(* REGRESSION (fix 9879695; was C07_produced_validates_refuted_stake).  Staking required, a peer
+   submitted a BlockStake transaction: it is not pooled, the block carries exactly the producer's
+   own staking transaction and is accepted by both nodes *)
+Example C07_foreign_stake_regression : exists b,
+  rc_created wit_stake = Ok b
+  /\ v_stake_req (rc_view wit_stake) <> 0
+  /\ count_type TBlockStake (b_txs b) = 1
+  /\ rc_known wit_stake b = false
+  /\ rc_accepts wn0 wit_stake b = Ok true
+  /\ run_rcase wn0 wit_stake = rc_expected wit_stake.
+Proof. eexists. split; [vm_compute; reflexivity|]. repeat split; try (vm_compute; reflexivity). vm_compute. discriminate. Qed.
 
-(* a pooled transaction spends an output that is due at this block but too small to be
-   rebroadcast: no double-spend signal, the block validates on both nodes, and both panic in
-   check_total_supply *)
+(* REGRESSION (fix 1214e31; was C07_rebroadcast_clash_witness).  A pooled transaction spends an
+   output that this block rebroadcasts: create leaves it out, the block is built from the rest
+   and accepted by both nodes *)
+Example C07_rebroadcast_clash_regression : exists b,
+  rc_created wit_clash = Ok b
+  /\ existsb (collides (rb_inputs (rc_cvC wit_clash))) (rc_drained wit_clash) = true
+  /\ existsb (collides (rb_inputs (rc_cvC wit_clash))) (filter (fun t => negb (is_type TATR t)) (b_txs b)) = false
+  /\ rc_accepts wn0 wit_clash b = Ok true
+  /\ run_rcase wn0 wit_clash = rc_expected wit_clash.
+Proof. eexists. split; [vm_compute; reflexivity|]. repeat split; vm_compute; reflexivity. Qed.
+
+(* STILL REFUTED (supply, C02's subject).  A pooled transaction spends an output that is due at
+   this block but too small to be rebroadcast: no double-spend signal, the block validates on both
+   nodes, and both panic in check_total_supply *)
 Example C07_dust_spend_witness : exists b,
   rc_created wit_dust = Ok b
   /\ rc_known wit_dust b = false
@@ -319,7 +396,7 @@ Example C07_dust_spend_witness : exists b,
   /\ run_rcase wn0 wit_dust = rc_expected wit_dust.
 Proof. eexists. split; [vm_compute; reflexivity|]. repeat split; vm_compute; reflexivity. Qed.
 
-(* timestamp not after the tip's: recorded round, no block, pool unchanged *)
+(* REGRESSION (fix f62222f).  Timestamp not after the tip's: no block, pool unchanged *)
 Example C07_timestamp_declined_witness :
   rc_ts wit_ts <= match v_tip (rc_view wit_ts) with Some p => par_ts p | None => 0 end
   /\ hd [] (run_rcase wn0 wit_ts) = [1]
@@ -327,8 +404,8 @@ Example C07_timestamp_declined_witness :
 Proof. repeat split; vm_compute; try reflexivity; discriminate. Qed.
 
 (* non-vacuity: a recorded round (golden ticket, staking transaction, three transfers,
-   rebroadcasts, fee transaction; staking on, window wrapped) that meets every hypothesis
-   of C07_produced_validates_outside_known, and is accepted by both nodes *)
+   rebroadcasts, fee transaction; staking on, window wrapped) that is outside Known_C07,
+   meets the structural hypotheses, and is accepted by both nodes *)
 Example C07_example : exists b p,
   v_tip (rc_view wit_ok) = Some p
   /\ rc_created wit_ok = Ok b
@@ -359,32 +436,36 @@ Example C07_gate_needs_honest_cache :
   let gtf := fun (_ : unit) (_ : tx) => true in
   let wn := fun _ _ _ _ : N => 50 in
   let h0 := fun _ : list N => 0 in
-  let t := mkTx 5 6 TNormal 10 [9] 0 in
+  let t := mkTx 5 6 TNormal 10 [9] 0 0 false in
   let m := mkM [t] [9] 60 true true [] in
   let nd := mkNode unit tt [] in
   can_bundle unit vw wn nd m 1100 false = Some 60
   /\ exists b, create unit vw cvf h0 h0 true nd 3 1100 None [t] = Ok b
-       /\ Known_C07 unit vw cvf valid gtf h0 true nd 3 1100 None [t] b = false
+       /\ Known_C07 unit vw cvf valid h0 true nd 3 1100 None [t] b = false
        /\ validate unit vw cvf valid gtf wn h0 true nd true b = Ok false.
 Proof. cbv zeta. split; [vm_compute; reflexivity|]. eexists. split; [vm_compute; reflexivity|]. split; vm_compute; reflexivity. Qed.
 
 Print Assumptions C07_agrees_fields.
 Print Assumptions C07_produced_validates.
 Print Assumptions C07_produced_validates_outside_known.
+Print Assumptions C07_create_filters.
 Print Assumptions C07_gate_implies_work.
 Print Assumptions C07_bundle_produced_validates.
 Print Assumptions C07_second_node.
 Print Assumptions C07_invalid_gt_rejected.
-Print Assumptions C07_invalid_gt_stuck.
+Print Assumptions C07_bundled_ticket_solves.
+Print Assumptions C07_invalid_gt_recovers.
+Print Assumptions C07_foreign_stake_refused.
 Print Assumptions C07_bundle_ts_declines.
 Print Assumptions C07_create_error_is_double_spend.
-Print Assumptions C07_create_failure_drains.
+Print Assumptions C07_create_failure_restores.
 Print Assumptions C07_produced_validates_refuted_cap.
-Print Assumptions C07_produced_validates_refuted_gt.
 Print Assumptions C07_produced_validates_refuted_issuance.
-Print Assumptions C07_produced_validates_refuted_stake.
-Print Assumptions C07_rebroadcast_clash_witness.
-Print Assumptions C07_timestamp_declined_witness.
+Print Assumptions C07_left_out_work_refuted.
+Print Assumptions C07_invalid_ticket_regression.
+Print Assumptions C07_foreign_stake_regression.
+Print Assumptions C07_rebroadcast_clash_regression.
 Print Assumptions C07_dust_spend_witness.
+Print Assumptions C07_timestamp_declined_witness.
 Print Assumptions C07_example.
 Print Assumptions C07_gate_needs_honest_cache.
